@@ -23,16 +23,16 @@ CHECKS.update({
                   'functions return holding exactly their contract. Covers any thread count and history up to 3 interfering changes per call and loop unrolling 2 (3 thorough). Plus bounded-interleaving scenarios.',
              note=E3NOTE + '; the rely (what other threads may do to the word) is stated in harness/e3/e2_word.c', ref='1.2'),
  'C02': e3('For every schedule within the bounds (2-3 threads, 3-4 rounds) no thread stays asleep with nobody able to wake it (deadlock oracle), every thread can finish; trylock/rtrylock never sleep under arbitrary interference.'),
- 'C03': e3('For every schedule within the bounds every plain access (client data and nsync non-atomic fields) is ordered by happens-before computed only from the memory orders the real atomic.h requests (vector clocks, C++20 release sequences).',
+ 'C03': e3('For every schedule within the bounds every plain access to client data (thorough: also every nsync non-atomic field) is ordered by happens-before computed only from the memory orders the real atomic.h requests (vector clocks, C++20 release sequences).',
            tech='bounded symbolic model checking with a vector-clock happens-before oracle over the declared memory orders taken from the LLVM IR (seqcc -> CBMC -> kissat)'),
  'C04': e3('Monitor-pattern scenarios whose only progress source is the wake-up: a lost or swallowed wake-up is a deadlock found by the solver over all schedules, deadlines and clock values within the bounds.'),
  'C05': dict(engine='E2+E3', technique='thread-modular step check (lock mode at return under arbitrary interference) plus bounded interleavings with solver-chosen deadline and clock', 
              text='nsync_mu_wait_with_deadline / nsync_cv_wait_with_deadline return holding the mutex in the mode of entry for every interference (E2); result codes agree with clock, condition and deadline on every bounded schedule (E3).', note=E3NOTE, ref='1.2'),
  'C06': e3('Bounded interleavings of conditional waiters (same / equivalent / different conditions, reader and writer mode) with setters: a waiter left asleep is a deadlock; conditions are evaluated only under exclusive hold (callback assertion and E2 guarantee).'),
  'C07': e3('Bounded interleavings of mixed run_once variants: run count == 1 and completion flag checked immediately after every return.'),
- 'C10': e3('Bounded interleavings of decrementers, waiter, reader: returned values, wait results against value and virtual clock, waiters released at zero (deadlock oracle).'),
- 'C11': e3('Bounded interleavings of nsync_wait_n over {counter}/{cv, counter} with decrementer/signaller, solver-chosen deadline: returned index vs object state and clock; leftover registrations exposed by making objects ready again (use-after-return oracle).'),
- 'C13': e3('Reference-count pattern with free of the object holding the mutex, and wait_n stack records: every access asserts liveness of the object in the memory model; UNSAT over all bounded schedules.'),
+ 'C10': e3('Bounded interleavings of a thread doing both decrements with a waiter / timed waiter (thorough: two decrementers, reader, passive waiter record + timed waiter): returned values, wait results against value and virtual clock, waiters released at zero (deadlock oracle, liveness of stack records).'),
+ 'C11': e3('Sequential registration protocol on the cv through the waitable interface (a dequeued record leaves the others reachable by a signal, nothing stays registered), and bounded interleavings of nsync_wait_n{cv} holding the mutex, solver-chosen deadline, against a signaller inside / after the critical section: returned index vs signal and clock; leftover registrations exposed by signalling again (use-after-return oracle).'),
+ 'C13': e3('Reference-count pattern with free of the object holding the mutex (2 users, writer/reader mix), and nsync_wait_n{cv} with a deadline against a signal issued after the critical section: every access asserts liveness of the heap / stack object in the memory model (this check found defect F3); UNSAT over all bounded schedules on the repaired tree.'),
  'C14': dict(engine='E2', technique='thread-modular step check on nsync_mu_lock/rlock/trylock/rtrylock/lock_slow with ghost sleep counter; retry loop unrolled past LONG_WAIT_THRESHOLD in the thorough tier',
              text='Solver-decided obligations (1) never-waited threads cannot acquire past MU_LONG_WAIT, (2) MU_LONG_WAIT is set at the 30th fruitless wake-up and cleared only by its setter on acquiring, (3) woken threads re-queue at the front. The bound on the number of sleeps derived from them is a paper argument.',
              note=E3NOTE, ref='2 C14'),
